@@ -143,7 +143,7 @@ M('ignore-start-prefix-dropped', 'break', ['C04'],
 M('ignore-class-start-fields', 'break', ['C04'],
   (TR, "first_rule = start_rule.members[0] if start_rule.members else None", "first_rule = start_rule.fields[0] if start_rule.fields else None"))
 M('ignore-skip-rule-drops-last', 'break', ['C04'],
-  (TR, "        refs = [Ref(x.name) for x in ignored]", "        refs = [Ref(x.name) for x in ignored[:1]]"))
+  (TR, "else Ref(x.name) for x in ignored]", "else Ref(x.name) for x in ignored[:1]]"))
 M('regex-skips-on-failure-path', 'break', ['C04', 'C01'],
   (EX + 'regex.py', "            out += RESULT << self.error_func()\n            out += STATUS << False\n\n    def complain", "            out += RESULT << self.error_func()\n            out += POS << utils.skip_ignored(POS, flags)\n            out += STATUS << False\n\n    def complain"))
 M('keywordarg-not-expression', 'break', ['C04', 'C06'],
